@@ -86,7 +86,10 @@ impl Pattern {
 
         let anchored_regex = "^".to_string() + &pattern + "$";
         let anchored_regex = Regex::new(anchored_regex.as_str(), opts.case_insensitive);
-        let prefix_regex = "^".to_string() + &pattern;
+        // the pattern must match whole leading components of the path, not just some leading
+        // characters of it, otherwise `/foo` would also match the prefix of `/foobar/`
+        let escaped_sep = escape(MAIN_SEPARATOR.to_string().as_str());
+        let prefix_regex = format!("^(?:{pattern})(?:{escaped_sep}|$)");
         let prefix_regex = Regex::new(prefix_regex.as_str(), opts.case_insensitive);
 
         match anchored_regex {
